@@ -11,4 +11,5 @@ fi
 git reset -q   # unstage whatever --3way staged
 cd /verif && bash bin/verif check "$ID" --tier "$TIER" > /tmp/try_seed.out 2>/tmp/try_seed.err; rc=$?
 git -C /repo checkout -- . ; rm -f /repo/*.orig /repo/*.rej
+bash "$HERE/build.sh" plain >/dev/null 2>&1   # never leave a binary of the seeded tree behind
 echo "exit=$rc"; grep -c '^VIOLATION' /tmp/try_seed.out; grep '^VIOLATION' /tmp/try_seed.out | head -3; grep 'violation' /tmp/try_seed.err | head -5
